@@ -24,8 +24,17 @@ def judge_c13(sc, keep, res, inproc):
     return bad
 
 
+def extra_scenarios(tier):
+    """a worker that survives a failed comparison (its answer cannot be read by the parent) at every position of a
+    recycle period, next to hangs and deaths"""
+    q = tier == 'quick'
+    return [('unread_r2', c08.consts(4, ['equal', 'unreadable', 'hangs'], 2, [4]), 120 if q else 5000),
+            ('unread_r3', c08.consts(4 if q else 5, ['equal', 'unreadable', 'exits'], 3, [4 if q else 5]), 120 if q else 5000),
+            ('unread_r1', c08.consts(3, ['equal', 'unreadable', 'late'], 1, [3]), 60 if q else 2000)]
+
+
 def run(rep, tier, seed):
-    c08.run(rep, tier, seed, judge=judge_c13)
+    c08.run(rep, tier, seed, judge=judge_c13, extra=extra_scenarios)
     rep.rule = ('same scenarios as C08 (terminal states of spec/Equalizer.tla: hangs and worker deaths at any position incl. '
                 'first, last, consecutive; recycle rates 1-3; runs consumed fully, closed early, or dropped by the consumer), '
                 'TLC additionally checks Terminates and NoLeak (liveness under weak fairness) and RecycleBound; on the real '
